@@ -701,7 +701,7 @@ impl World {
             trace: Trace::default(),
             ops_h: Vec::new(),
             jitter: 0,
-            max_polls: 200_000,
+            max_polls: 6_000_000,
             cancel_disconnect_midway: false,
             excluded_disconnect_cancels: 0,
             tx_len: 0,
@@ -1162,7 +1162,7 @@ fn do_step(w: &mut World, tr: &Tr, conn: &mut Connection<'_, '_, SimIo>, at: (us
             let mut guard = 0u32;
             loop {
                 guard += 1;
-                if guard > 200_000 {
+                if guard > 2_000_000 {
                     w.trace.watchdog = true;
                     break;
                 }
